@@ -1271,9 +1271,67 @@ private:
     return true;
   }
 
+  /// Reads the four hex digits of a \uXXXX escape. On entry _pos is on the
+  /// 'u'; on success _pos is on the last hex digit. Never moves past the input.
+  bool _parseHex4(std::uint32_t &out)
+  {
+    if (_pos + 4 >= _text.size())
+    {
+      _error = "Incomplete unicode escape";
+      return false;
+    }
+    std::uint32_t value = 0;
+    for (std::size_t i = 1; i <= 4; ++i)
+    {
+      const char h = _text[_pos + i];
+      std::uint32_t digit = 0;
+      if (h >= '0' && h <= '9')
+        digit = static_cast<std::uint32_t>(h - '0');
+      else if (h >= 'a' && h <= 'f')
+        digit = static_cast<std::uint32_t>(h - 'a' + 10);
+      else if (h >= 'A' && h <= 'F')
+        digit = static_cast<std::uint32_t>(h - 'A' + 10);
+      else
+      {
+        _error = "Invalid unicode escape";
+        return false;
+      }
+      value = (value << 4) | digit;
+    }
+    _pos += 4;
+    out = value;
+    return true;
+  }
+
+  static void _appendUtf8(std::string &str, std::uint32_t cp)
+  {
+    if (cp < 0x80u)
+    {
+      str += static_cast<char>(cp);
+    }
+    else if (cp < 0x800u)
+    {
+      str += static_cast<char>(0xC0u | (cp >> 6));
+      str += static_cast<char>(0x80u | (cp & 0x3Fu));
+    }
+    else if (cp < 0x10000u)
+    {
+      str += static_cast<char>(0xE0u | (cp >> 12));
+      str += static_cast<char>(0x80u | ((cp >> 6) & 0x3Fu));
+      str += static_cast<char>(0x80u | (cp & 0x3Fu));
+    }
+    else
+    {
+      str += static_cast<char>(0xF0u | (cp >> 18));
+      str += static_cast<char>(0x80u | ((cp >> 12) & 0x3Fu));
+      str += static_cast<char>(0x80u | ((cp >> 6) & 0x3Fu));
+      str += static_cast<char>(0x80u | (cp & 0x3Fu));
+    }
+  }
+
   bool _parseString(Json &out)
   {
-    if (_text[_pos] != '"')
+    if (_pos >= _text.size() || _text[_pos] != '"')
     {
       _error = "Expected '\"'";
       return false;
@@ -1326,10 +1384,42 @@ private:
           str += '\t';
           break;
         case 'u':
-          // Unicode escape - simplified implementation
-          _pos += 4;  // Skip the 4 hex digits for now
-          str += '?'; // Placeholder
+        {
+          // \uXXXX: one UTF-16 code unit; a high surrogate must be followed by
+          // an escaped low surrogate, the pair denotes one code point.
+          std::uint32_t cp = 0;
+          if (!_parseHex4(cp))
+          {
+            return false;
+          }
+          if (cp >= 0xD800u && cp <= 0xDBFFu)
+          {
+            if (_pos + 2 >= _text.size() || _text[_pos + 1] != '\\' || _text[_pos + 2] != 'u')
+            {
+              _error = "Invalid surrogate pair in unicode escape";
+              return false;
+            }
+            _pos += 2; // now on the 'u' of the second escape
+            std::uint32_t low = 0;
+            if (!_parseHex4(low))
+            {
+              return false;
+            }
+            if (low < 0xDC00u || low > 0xDFFFu)
+            {
+              _error = "Invalid surrogate pair in unicode escape";
+              return false;
+            }
+            cp = 0x10000u + ((cp - 0xD800u) << 10) + (low - 0xDC00u);
+          }
+          else if (cp >= 0xDC00u && cp <= 0xDFFFu)
+          {
+            _error = "Invalid surrogate pair in unicode escape";
+            return false;
+          }
+          _appendUtf8(str, cp);
           break;
+        }
         default:
           _error = "Invalid escape sequence";
           return false;
